@@ -70,8 +70,13 @@ impl Variable {
     fn debug(&self, depth: u8) -> String {
         match_any! { self,
             Self::Int(value)
-            | Self::Float(value)
-            | Self::String(value) => format!("{value:?}"),
+            | Self::Float(value) => format!("{value:?}"),
+            // print NUL as \u{0}: `\0` followed by a digit would be read back as an octal escape
+            Self::String(value) => format!("{value:?}")
+                .split(r"\\")
+                .map(|part| part.replace(r"\0", r"\u{0}"))
+                .collect::<Box<[_]>>()
+                .join(r"\\"),
             _ => self.string(depth)
         }
     }
